@@ -297,7 +297,10 @@ def generate(repo):
     ctree = ast.parse(open(f"{repo}/xyzpy/gen/cropping.py").read())
     got = [ast.unparse(x) for x in body_of(find_function(ctree, "Crop.sow_samples"))]
     got = [g.replace("fn_args, cases = ", "(fn_args, cases) = ") for g in got]
+    # (results of an earlier sow belong to other, randomly drawn samples: they are removed before the new sow)
     if got != ["(fn_args, cases) = self.farmer.gen_cases_fnargs(n, combos)",
+               "stale_results = glob.glob(os.path.join(glob.escape(self.location), 'results', RSLT_NM.format('*')))",
+               "for result_file in stale_results:\n    os.remove(result_file)",
                "self.sow_cases(fn_args, cases, constants=constants, verbosity=verbosity)"]:
         raise Refused(find_function(ctree, "Crop.sow_samples"), "sow_samples differs from the transcription")
     out += ["Definition gen_sampler_draw_is_transcribed : bool := true.", ""]
